@@ -14,7 +14,8 @@ from __future__ import annotations
 import ast
 from typing import Dict, List, Optional
 
-from .loader import AnalysisError, ClassInfo, Const, Ext, FuncInfo, ModRef, Program
+from .loader import (AnalysisError, ClassInfo, Const, Ext, FuncInfo, ModRef, Program, decorator_name, library_constant,
+                     LIBRARY_DATA_MODULES)
 
 ENZYME_ATTRS = {
     "site", "fst5", "fst3", "ovhg", "ovhgseq", "size", "scd5", "scd3",
@@ -199,6 +200,36 @@ def _own_walk(fn):
         stack.extend(ast.iter_child_nodes(n))
 
 
+class _ClassNS(object):
+    """cls.__dict__ / vars(cls): the class's own namespace (what its body binds, what a creation hook stored on it so far)"""
+
+    def __init__(self, folder, ci):
+        self.folder, self.ci = folder, ci
+
+    def _overlay(self):
+        return self.folder._hook_overlay if getattr(self.folder, "_hook_target", None) is self.ci and self.folder._hook_overlay is not None else {}
+
+    def __contains__(self, name):
+        return name in self._overlay() or name in self.ci.attrs
+
+    def __getitem__(self, name):
+        ov = self._overlay()
+        if name in ov:
+            return ov[name]
+        if name in self.ci.attrs:
+            return self.folder._attr_value(self.ci, self.ci.attrs[name], self.ci)
+        raise KeyError(name)
+
+    def get(self, name, default=None):
+        return self[name] if name in self else default
+
+    def keys(self):
+        return list(self.ci.attrs) + [k for k in self._overlay() if k not in self.ci.attrs]
+
+    def __iter__(self):
+        return iter(self.keys())
+
+
 class _ClassScope(dict):
     """names of a class body, evaluated on demand (only plain data attributes: functions are not names of the scope an
     expression of the body can call before the class exists ... they are, but the repo's tables never do)"""
@@ -263,6 +294,10 @@ class Folder(object):
         # the expression sits in the class body: the names bound earlier in that body are in scope
         ev = _Frame(self, owner.module, _ClassScope(self, owner), owner, None)
         return ev.expr(e)
+
+    def module_const(self, module, e: ast.expr):
+        """the value of an expression written at module level (names resolve through the module's bindings)"""
+        return _Frame(self, module, {}, None, None).expr(e)
 
     def call_method(self, ci: ClassInfo, name: str, after: Optional[ClassInfo] = None):
         owner, raw = self.p.class_attr_def(ci, name, after=after)
@@ -339,7 +374,14 @@ class Folder(object):
             self.apply_hooks_to(ci)
         p._class_hook = self.apply_hooks_to
 
+    HARMLESS_CLASS_DECORATORS = ("six.python_2_unicode_compatible", "python_2_unicode_compatible", "six.add_metaclass", "add_metaclass",
+                                 "dataclasses.dataclass", "dataclass", "functools.total_ordering", "total_ordering")
+
     def apply_hooks_to(self, ci: ClassInfo):
+        self._apply_init_subclass(ci)
+        self._apply_class_decorators(ci)
+
+    def _apply_init_subclass(self, ci: ClassInfo):
         p = self.p
         try:
             owner, hook = p.class_attr_def(ci, "__init_subclass__", after=ci)
@@ -350,26 +392,141 @@ class Folder(object):
         saved = (getattr(self, "_hook_target", None), getattr(self, "_hook_overlay", None))
         self._hook_target, self._hook_overlay = ci, {}
         try:
-            self.call_func(hook, ci, [], {})
+            # keywords of the class statement (`class Entry(AbstractModule, level=0)`) are handed to the hook
+            kw = {}
+            if ci.node is not None and ci.module is not None:
+                fr0 = _Frame(self, ci.module, {}, None, None)
+                for k_ in ci.node.keywords:
+                    if k_.arg is None:
+                        raise AnalysisError("%s: **keywords in a class statement" % ci.qualname)
+                    if k_.arg != "metaclass":
+                        kw[k_.arg] = fr0.expr(k_.value)
+            self.call_func(hook, ci, [], kw)
         except (AnalysisError, Raises, RecursionError):
             self._hook_target, self._hook_overlay = saved
+            # what the hook stores on the class is not known: the attributes the hooks on the MRO assign are then unknown
+            # for this class (reading one is an analysis error, not the value the class bodies spell)
+            names = set()
+            for c in p.mro(ci)[1:]:
+                h = c.attrs.get("__init_subclass__") if isinstance(c, ClassInfo) else None
+                if isinstance(h, FuncInfo):
+                    for n in ast.walk(h.node):
+                        if isinstance(n, (ast.Assign, ast.AugAssign, ast.AnnAssign)):
+                            for t in (n.targets if isinstance(n, ast.Assign) else [n.target]):
+                                if isinstance(t, ast.Attribute):
+                                    names.add(t.attr)
+                        if isinstance(n, ast.Call) and isinstance(n.func, ast.Name) and n.func.id == "setattr" and len(n.args) >= 2:
+                            names.add(n.args[1].value if isinstance(n.args[1], ast.Constant) and isinstance(n.args[1].value, str) else "*")
+            ci.unevaluated_hook_attrs = names
             return
         overlay = self._hook_overlay
         self._hook_target, self._hook_overlay = saved
+        entries = self._overlay_entries(ci, overlay)
+        if entries is None:
+            return
+        ci.attrs.update(entries)
+        ci._hooks_applied = True
+
+    def _overlay_entries(self, ci: ClassInfo, overlay):
+        """class-table entries for what a hook or a class decorator stored on the class; None when a value has no
+        representation there"""
         entries = {}
         for name, v in overlay.items():
-            if isinstance(v, _Wrapped) or (isinstance(v, _Bound) and v.kind == "func"):
-                inner = v.func if isinstance(v, _Wrapped) else v
+            inner = v.func if isinstance(v, _Wrapped) else v
+            how = [v.how] if isinstance(v, _Wrapped) else []
+            if isinstance(inner, _Bound) and inner.kind == "func":
                 fi0 = inner.target[0]
                 clone = FuncInfo(fi0.module, fi0.node, ci)
-                clone.decorators = [v.how] if isinstance(v, _Wrapped) else []
+                clone.decorators = how
                 entries[name] = clone
+            elif isinstance(inner, _Partial) and inner.kind == "closure":
+                fi1 = self._closure_funcinfo(ci, name, inner, how)
+                if fi1 is None:
+                    return None
+                entries[name] = fi1
+            elif isinstance(v, _Wrapped):
+                return None
             elif v is None or isinstance(v, (str, int, bool, tuple, frozenset)) or v is NotImplemented:
                 entries[name] = Const(v)
             else:
+                return None
+        return entries
+
+    def _closure_funcinfo(self, ci: ClassInfo, name: str, clo, how):
+        """A function object made by a factory (`def refusal(name): def newfunc(self, *a): ...; return newfunc`) and stored on
+        a class: the nested definition, with the variables it closes over bound to the constants they had when it was
+        made.  None when a closed-over value is not a plain constant."""
+        import copy as _copy
+
+        st, frame, params, defaults = clo.data
+        a = st.args
+        bound = {x.arg for x in a.posonlyargs + a.args + a.kwonlyargs}
+        bound |= {x.arg for x in (a.vararg, a.kwarg) if x is not None}
+        bound |= {n.id for n in ast.walk(st) if isinstance(n, ast.Name) and isinstance(n.ctx, (ast.Store, ast.Del))}
+        free = sorted({n.id for n in ast.walk(st) if isinstance(n, ast.Name) and isinstance(n.ctx, ast.Load)} - bound)
+
+        def literal(v):
+            if v is None or isinstance(v, (str, int, bool)):
+                return ast.Constant(value=v)
+            if isinstance(v, tuple):
+                elts = [literal(x) for x in v]
+                return None if any(x is None for x in elts) else ast.Tuple(elts=elts, ctx=ast.Load())
+            return None
+
+        prologue = []
+        for nm in free:
+            if nm not in frame.env:
+                continue  # a name of the module (or a builtin): resolved where the definition stands
+            lit = literal(frame.env[nm])
+            if lit is None:
+                return None
+            prologue.append(ast.Assign(targets=[ast.Name(id=nm, ctx=ast.Store())], value=lit))
+        node = _copy.deepcopy(st)
+        node.name = name
+        node.decorator_list = []
+        for d_ in a.defaults + [x for x in a.kw_defaults if x is not None]:
+            if not isinstance(d_, ast.Constant):
+                return None
+        for st_ in prologue:
+            ast.copy_location(st_, st)
+            for sub in ast.walk(st_):
+                ast.copy_location(sub, st)
+        node.body = prologue + node.body
+        ast.fix_missing_locations(node)
+        fi1 = FuncInfo(frame.m, node, ci)
+        fi1.decorators = list(how)
+        fi1.made_by = "%s:%d" % (frame.m.relpath, st.lineno)
+        return fi1
+
+    def _apply_class_decorators(self, ci: ClassInfo):
+        """@decorator class C: the decorator receives the finished class and may store attributes on it (methods made by a
+        factory, a `structure` computed from the enzymes).  Evaluate it; what it stores enters the class table.  A
+        decorator that cannot be evaluated leaves the class marked: reading an attribute that would be found in its own
+        dictionary is then an analysis error (the dictionary is not known), never a silent guess."""
+        node = ci.node
+        if node is None or not node.decorator_list:
+            return
+        for dec in reversed(node.decorator_list):
+            dn = decorator_name(dec)
+            if dn in self.HARMLESS_CLASS_DECORATORS or dn.split(".")[-1] == "register":
+                continue
+            saved = (getattr(self, "_hook_target", None), getattr(self, "_hook_overlay", None))
+            self._hook_target, self._hook_overlay = ci, {}
+            ok = False
+            try:
+                fr = _Frame(self, ci.module, {}, None, None)
+                fn = fr.expr(dec)
+                res = fr.apply(fn, [ci], {}, dec)
+                ok = res is ci
+            except (AnalysisError, Raises, RecursionError):
+                ok = False
+            overlay = self._hook_overlay
+            self._hook_target, self._hook_overlay = saved
+            entries = self._overlay_entries(ci, overlay) if ok else None
+            if entries is None:
+                ci.opaque_decorator = "@%s (%s:%d)" % (ast.unparse(dec)[:60], ci.module.relpath, dec.lineno)
                 return
-        ci.attrs.update(entries)
-        ci._hooks_applied = True
+            ci.attrs.update(entries)
 
     def structure(self, ci: ClassInfo) -> str:
         v = self.call_method(ci, "structure")
@@ -562,6 +719,8 @@ class _Frame(object):
                 obj.attrs[target.attr] = v
             elif isinstance(obj, ClassInfo) and obj is getattr(self.f, "_hook_target", None):
                 self.f._hook_overlay[target.attr] = v  # __init_subclass__ setting an attribute of the class being created
+            elif isinstance(obj, _Partial) and obj.kind in ("closure", "lambda") and target.attr in ("__doc__", "__name__", "__qualname__", "__module__"):
+                pass  # metadata of a function object: not part of what it computes
             else:
                 self.unsupported(target, "attribute store")
         else:
@@ -683,7 +842,7 @@ class _Frame(object):
             r = self.f.p.lookup(self.m.name, e.id)
             if r is not None:
                 return self._from_binding(r, e)
-        if e.id in ("str", "issubclass", "super", "isinstance", "format", "next", "iter", "hasattr", "getattr", "type", "filter", "map", "staticmethod", "classmethod") or e.id in PURE_BUILTINS:
+        if e.id in ("str", "issubclass", "super", "isinstance", "format", "next", "iter", "hasattr", "getattr", "type", "filter", "map", "staticmethod", "classmethod", "setattr", "vars") or e.id in PURE_BUILTINS:
             return _Bound("builtin", None, e.id)
         self.unsupported(e, "name")
 
@@ -708,10 +867,15 @@ class _Frame(object):
                 return _Bound("builtin", None, "chain")
             if d == "re":
                 return _ReModule()
-            if d in ("collections", "functools", "operator", "itertools"):
+            if d in ("collections", "functools", "operator", "itertools", "types", "six") or d in LIBRARY_DATA_MODULES:
                 return _LibModule(d)
-            if d in ("collections.OrderedDict",):
-                return _Bound("builtin", None, "dict")
+            ok_, v_ = library_constant(d)
+            if ok_:
+                return v_
+            if d in ("six.iteritems", "six.itervalues", "six.iterkeys", "six.viewitems", "six.viewkeys", "six.viewvalues"):
+                return _Bound("lib", None, d)
+            if d in ("collections.OrderedDict", "types.MappingProxyType"):
+                return _Bound("builtin", None, "dict")  # a read-only view folds to the table it shows
             if d in ("functools.partial", "functools.reduce", "operator.methodcaller", "operator.attrgetter", "operator.itemgetter",
                      "collections.namedtuple", "typing.NamedTuple") or (d.startswith("operator.") and d[9:] in _OPERATOR_FUNCS):
                 return _Bound("lib", None, d)
@@ -748,6 +912,10 @@ class _Frame(object):
                                 and not (isinstance(n.value, ast.Constant) and n.value.value is None):
                             raise AnalysisError("%s:%d: class attribute %s is computed per class by %s.__init_subclass__; class creation "
                                                 "hooks are not evaluated by the constant folder" % (isub.module.relpath, n.lineno, a, c.name))
+            if a == "__dict__":
+                return _ClassNS(self.f, base)
+            if base is getattr(self.f, "_hook_target", None) and a in (self.f._hook_overlay or {}):
+                return self.f._hook_overlay[a]  # stored on the class a moment ago by the hook / decorator under evaluation
             owner, raw = self.f.p.class_attr_def(base, a)
             if owner is None:
                 if a == "__name__":
@@ -767,13 +935,21 @@ class _Frame(object):
             return self.f._attr_value(owner, raw, base.cls)
         if isinstance(base, _LibModule):
             d = "%s.%s" % (base.name, a)
-            if d == "collections.OrderedDict":
+            if d in ("collections.OrderedDict", "types.MappingProxyType"):
                 return _Bound("builtin", None, "dict")
             if d == "itertools.chain":
                 return _Bound("builtin", None, "chain")
             if d in ("functools.partial", "functools.reduce", "operator.methodcaller", "operator.attrgetter", "operator.itemgetter",
                      "collections.namedtuple") or (base.name == "operator" and a in _OPERATOR_FUNCS):
                 return _Bound("lib", None, d)
+            if d in ("six.iteritems", "six.itervalues", "six.iterkeys", "six.viewitems", "six.viewkeys", "six.viewvalues"):
+                return _Bound("lib", None, d)
+            if d == "six.MAXSIZE":
+                import sys as _sys
+                return _sys.maxsize
+            ok_, v_ = library_constant(d)
+            if ok_:
+                return v_
             self.unsupported(e, "%s" % d)
         if isinstance(base, _ReModule):
             if a in SAFE_RE_FUNCS:
@@ -830,8 +1006,15 @@ class _Frame(object):
             if a in ("reverse_complement", "complement", "upper", "lower"):
                 return _Bound("seq", base, a)
             self.unsupported(e, "Seq method")
+        if isinstance(base, _ClassNS) and a in ("get", "keys"):
+            return _Bound("native", base, a)
         if isinstance(base, _Bound) and base.kind == "builtin" and base.name == "str" and a in ("maketrans", "join", "format"):
             return _Bound("strstatic", None, a)
+        if isinstance(base, _Bound) and base.kind in ("func", "method") and a in ("__doc__", "__name__"):
+            fi0 = base.target[0]
+            return ast.get_docstring(fi0.node, clean=False) if a == "__doc__" else fi0.name
+        if isinstance(base, _Partial) and base.kind == "closure" and a in ("__doc__", "__name__"):
+            return ast.get_docstring(base.data[0], clean=False) if a == "__doc__" else base.data[0].name
         self.unsupported(e, "attribute base %r" % (base,))
 
     def attr_of(self, base, a, node):
@@ -893,8 +1076,8 @@ class _Frame(object):
 
     def closure(self, st):
         a = st.args
-        if a.vararg or a.kwarg or a.kwonlyargs or st.decorator_list:
-            self.unsupported(st, "nested function signature")
+        if st.decorator_list and not all(decorator_name(d) in ("wraps", "functools.wraps") for d in st.decorator_list):
+            self.unsupported(st, "decorated nested function")
         params = [x.arg for x in a.posonlyargs + a.args]
         dvals = [self.expr(d) for d in a.defaults]
         return _Partial("closure", st, self, params, dict(zip(params[len(params) - len(dvals):], dvals)))
@@ -1041,7 +1224,7 @@ class _Frame(object):
                 self.unsupported(e, "slice bounds")
             return base[lo:hi:st]
         idx = self.expr(e.slice)
-        if isinstance(base, (str, tuple, list, dict)):
+        if isinstance(base, (str, tuple, list, dict, _ClassNS)):
             try:
                 return base[idx]
             except (KeyError, IndexError) as ex:
@@ -1112,6 +1295,8 @@ class _Frame(object):
                 return sub.expr(lam.body)
             if k == "closure":
                 st, frame, params, defaults = fn.data
+                if st.args.vararg or st.args.kwarg or st.args.kwonlyargs:
+                    self.unsupported(e, "nested function signature")
                 env = dict(frame.env)
                 env.update(defaults)
                 if len(args) > len(params):
@@ -1158,6 +1343,9 @@ class _Frame(object):
                 for x in seq:
                     acc = self.apply(args[0], [acc, x], {}, e)
                 return acc
+            if d.startswith("six.") and len(args) == 1 and not kwargs and isinstance(args[0], dict):
+                which = d[4:].replace("iter", "").replace("view", "")
+                return list(getattr(args[0], which)())
             if d.startswith("operator."):
                 import operator as _op
 
@@ -1234,6 +1422,14 @@ class _Frame(object):
             n = fn.name
             if n in ("staticmethod", "classmethod") and len(args) == 1 and not kwargs and isinstance(args[0], _Bound) and args[0].kind == "func":
                 return _Wrapped(n, args[0])
+            if n in ("staticmethod", "classmethod") and len(args) == 1 and not kwargs and isinstance(args[0], _Partial) and args[0].kind == "closure":
+                return _Wrapped(n, args[0])
+            if n == "vars" and len(args) == 1 and not kwargs and isinstance(args[0], ClassInfo):
+                return _ClassNS(self.f, args[0])
+            if n == "setattr" and len(args) == 3 and not kwargs and isinstance(args[0], ClassInfo) and isinstance(args[1], str) \
+                    and args[0] is getattr(self.f, "_hook_target", None):
+                self.f._hook_overlay[args[1]] = args[2]
+                return None
             if n in ("str", "format") and len(args) == 1 and not kwargs:
                 return self._str(args[0], e)
             if n == "str" and not args:
